@@ -25,6 +25,11 @@ impl Obs {
             None => NONE,
         });
     }
+    /// this observation followed by another one (each part may have collapsed to a panic cell on its own)
+    pub fn then(mut self, other: Obs) -> Obs {
+        self.0.extend(other.0);
+        self
+    }
     pub fn none(&mut self) {
         self.0.push(NONE);
     }
